@@ -88,6 +88,7 @@ fn main() {
         "C12" => props::c12::run(tier),
         "C13" => props::c13::run(tier),
         "C14" => props::c14::run(tier),
+        "C15" => props::c15::run(tier),
         "C16" => props::c16::run(tier),
         "C17" => props::c17::run(tier),
         _ => {
